@@ -840,8 +840,8 @@ def scenario(run, si):
             progress = False
             for addr in addrs:
                 got = scn.walk(addr.cap, addr.path)
-                if got is None:
-                    continue
+                if got is None or not got[0].live:
+                    continue            # unlinked or replaced by an earlier operation of this round
                 o, a = got
                 chain = [scn.walk(addr.cap, addr.path[:i]) for i in range(len(addr.path) + 1)]
                 if not all(scn.writeable(*c) for c in chain[:-1]):
@@ -862,7 +862,7 @@ def scenario(run, si):
                     # operations that remove what later cases need are kept for the end of the round
                     if op["key"][1] == "DELETE" and o.kind == "dir":
                         continue
-                    if scn.walk(addr.cap, addr.path) is None:
+                    if scn.walk(addr.cap, addr.path) is None or not o.live or (parent is not None and not parent.live):
                         break
                     m = op["model"]
                     if m.get("to_dir") and classify(m["to_dir"]) != "AW":
@@ -875,7 +875,7 @@ def scenario(run, si):
                     progress = True
                     pres = [addr.cap] + ([m["to_dir"]] if m.get("to_dir") else [])
                     do_request(run, scn, si, addr, op, pres, True, "%s/%s" % (o.kind, "mutable" if o.mutable else "immutable"))
-                    if scn.walk(addr.cap, addr.path) is None or scn.walk(addr.cap, addr.path)[0].id != o.id:
+                    if scn.walk(addr.cap, addr.path) is None or scn.walk(addr.cap, addr.path)[0].id != o.id or not o.live:
                         break
             if not progress:
                 break
@@ -941,8 +941,15 @@ class quiet_twisted(object):
     """twisted.python.log's DefaultObserver prints every logged failure to stderr until logging is started;
     the renderers log a traceback for each 500 they answer.  The grid's own observer keeps collecting them."""
 
+    _begun = [False]
+
     def __enter__(self):
         from twisted.python import log
+        if not self._begun[0]:
+            # until logging "begins", twisted.logger writes every critical event (each logged Failure) to stderr
+            from twisted.logger import globalLogBeginner
+            globalLogBeginner.beginLoggingTo([lambda event: None], redirectStandardIO=False, discardBuffer=True)
+            self._begun[0] = True
         self.obs = log.defaultObserver
         if self.obs is not None:
             try:
@@ -983,7 +990,7 @@ def _run(ctx):
     nscen = ctx.n(3, 8)
     for si in range(nscen):
         scenario(r, si)
-        if ctx.tier == "quick" and not ctx.search and ctx.elapsed() > 50:
+        if ctx.tier == "quick" and not ctx.search and ctx.elapsed() > 40:
             break
     # every entry of the regenerated table was exercised (URIHandler creates unlinked objects: no authority involved;
     # FileNodeDownloadHandler is only reachable with GET/HEAD)
